@@ -565,6 +565,13 @@ def run(prog, ctx):
                 loops = [l for l in R.enclosing_loops(s) if isinstance(l, ast.For)]
                 for l in loops:
                     it = tmb2.term(l.iter)
+                    if it[0] == "call" and it[1] == ("n", "enumerate") and len(it[2]) == 1 and it[2][0][0] == "n":
+                        # the slice may be taken once before the loops:  objs = container.get_objects()[start:end]
+                        bs_ = [b_ for b_ in tmb2.env.bindings.get(it[2][0][1], []) if b_.kind == "assign"]
+                        if len(tmb2.env.bindings.get(it[2][0][1], [])) == 1 and len(bs_) == 1:
+                            sl_ = tmb2.term(bs_[0].value)
+                            if sl_[0] == "s" and sl_[2][0] == "slice":
+                                it = ("call", ("n", "enumerate"), (sl_,), ())
                     if isinstance(l.target, ast.Tuple) and len(l.target.elts) == 2 and isinstance(l.target.elts[1], ast.Name) \
                             and l.target.elts[1].id == cur.id and it[0] == "call" and it[1] == ("n", "enumerate"):
                         j = l.target.elts[0].id
